@@ -36,36 +36,55 @@ Theorem C05_shadow_receiver_accepted : forall c l st,
   (filter is_ok (fst (run _ _ _ (rx_step c) st l)), snd (run _ _ _ (rx_step c) st l)).
 Proof. exact ctx_shadow_accepted. Qed.
 
-(* ---- SrtpSession: a rejected datagram leaves the effective context (stored, else fresh) of EVERY
-   SSRC unchanged and does not touch the sending side -- a context created by a forgery is
-   indistinguishable from no context -- as long as the table is not under eviction pressure *)
-Theorem C05_session_reject_preserves_rtp : forall c s now sp b,
-  zlen (s_rx s) <= SSRC_CONTEXT_HIGH_WATERMARK ->
-  is_ok (fst (sess_unprotect_rtp c s now sp)) = false ->
-  effective c (s_prof s) (s_rxk s) b (s_rx (snd (sess_unprotect_rtp c s now sp))) =
-  effective c (s_prof s) (s_rxk s) b (s_rx s) /\
-  s_tx (snd (sess_unprotect_rtp c s now sp)) = s_tx s.
+(* ---- SrtpSession (after the F23 fix 9085571): a rejected datagram -- known or unknown SSRC, any
+   table size, any time -- leaves the WHOLE session exactly as it was: no context created, no
+   last_used refreshed, nothing evicted, sending side untouched *)
+Theorem C05_session_reject_preserves_rtp : forall c s now sp,
+  is_ok (fst (sess_unprotect_rtp c s now sp)) = false -> snd (sess_unprotect_rtp c s now sp) = s.
 Proof. exact session_reject_preserves_rtp. Qed.
 
-Theorem C05_session_reject_preserves_rtcp : forall c s now pkt b,
-  zlen (s_rx s) <= SSRC_CONTEXT_HIGH_WATERMARK ->
-  is_ok (fst (sess_unprotect_rtcp c s now pkt)) = false ->
-  effective c (s_prof s) (s_rxk s) b (s_rx (snd (sess_unprotect_rtcp c s now pkt))) =
-  effective c (s_prof s) (s_rxk s) b (s_rx s) /\
-  s_tx (snd (sess_unprotect_rtcp c s now pkt)) = s_tx s.
+Theorem C05_session_reject_preserves_rtcp : forall c s now pkt,
+  is_ok (fst (sess_unprotect_rtcp c s now pkt)) = false -> snd (sess_unprotect_rtcp c s now pkt) = s.
 Proof. exact session_reject_preserves_rtcp. Qed.
 
-(* listed finding F23: under pressure (33 forged SSRCs) a genuine context idle for 60 s is evicted;
-   the hypothesis `zlen (s_rx s) <= 32` above cannot be dropped *)
-Theorem C05_context_table_refuted :
+(* the source commits receiver state only after the operation succeeded (with_rx_context, both
+   callers and both evict_stale_* compared verbatim by the translator) *)
+Theorem C05_session_commit_after_auth : session_rx_commit_after_auth = true.
+Proof. exact session_commit_translated. Qed.
+
+(* C05_session_history: any history of session operations (protect / unprotect, SRTP / SRTCP, any
+   SSRCs, any times, with or without table pressure): mark any set of rejected RECEIVE operations
+   (forgeries on live or made-up SSRCs, out-of-window packets) and drop them -- the remaining
+   operations produce exactly the same outputs and the same final session *)
+Theorem C05_session_history : forall c l s,
+  dropped_rejected _ _ _ (sess_rstep c) s l = true ->
+  run _ _ _ (sess_rstep c) s (kept _ l) = run_kept _ _ _ (sess_rstep c) s l.
+Proof. exact session_shadow. Qed.
+
+Theorem C05_session_history_accepted : forall c l s,
+  run _ _ _ (sess_rstep c) s (kept _ (mark_accepted _ _ _ (sess_rstep c) s l)) =
+  (filter is_ok (fst (run _ _ _ (sess_rstep c) s l)), snd (run _ _ _ (sess_rstep c) s l)).
+Proof. exact session_shadow_accepted. Qed.
+
+(* model witness of the fixed F23 scenario: 33 forged SSRCs, all rejected, 61 s later: the session is
+   unchanged and the genuine stream (ROC 1) continues; only authenticated SSRCs can still create
+   pressure (C04 F23) *)
+Theorem C05_forged_flood_harmless :
   crypto_ok toy /\
   snd w_state = [true; true; true; true] /\
   w_next 61 (snd (fst w_state)) = true /\
   snd (w_flood (snd (fst w_state)) 61 1000 33) = true /\
-  w_next 61 (fst (w_flood (snd (fst w_state)) 61 1000 33)) = false /\
-  w_next 61 (fst (w_flood (snd (fst w_state)) 61 1000 32)) = true /\
-  w_next 59 (fst (w_flood (snd (fst w_state)) 59 1000 33)) = true.
+  fst (w_flood (snd (fst w_state)) 61 1000 33) = snd (fst w_state) /\
+  w_next 61 (w_auth_flood w_tx2 (snd (fst w_state)) 61 2000 32) = false /\
+  w_next 61 (w_auth_flood w_tx2 (snd (fst w_state)) 61 2000 31) = true /\
+  w_next 59 (w_auth_flood w_tx2 (snd (fst w_state)) 59 2000 32) = true.
 Proof. exact eviction_witness. Qed.
+
+(* the tag comparison: constant_time_eq's body, its two call sites and the tag slices over the FULL
+   tag_len() / rtcp_tag_len() are compared verbatim with the source by the translator; the model's
+   `bytes_eqb tag (firstn tag_len (mac ..))` is that comparison *)
+Theorem C05_tag_compare_as_translated : tag_compare_full_length = true.
+Proof. exact tag_compare_translated. Qed.
 
 (* ---- coverage: every byte of the datagram is authenticated *)
 
